@@ -27,37 +27,50 @@ Proof.
 Qed.
 
 (* ---------- the lines split_lines produces ---------- *)
-Definition raw_ok (l : line) : Prop := no_lf (fst l) = true /\ term_nl (snd l).
+(* a line terminated by a bare LF never has content ending in CR (the scan would have taken CR LF as the terminator) *)
+Definition cr_ok (l : line) : Prop := snd l = [LF] -> no_cr_end (fst l).
+Definition raw_ok (l : line) : Prop := no_lf (fst l) = true /\ term_nl (snd l) /\ cr_ok l.
 Definition raw_last (l : line) : Prop := raw_ok l \/ (snd l = [] /\ fst l <> [] /\ no_lf (fst l) = true).
 
 Lemma no_lf_app a b : no_lf (a ++ b) = no_lf a && no_lf b.
 Proof. apply forallb_app. Qed.
 
-Lemma split_lines_shape s : forall cur, no_lf cur = true -> shape raw_ok raw_last (split_lines_aux s cur).
+(* invariant of the scan: if the buffered content ends in CR, the next character is not LF *)
+Definition cur_inv (cur s : str) : Prop :=
+  (last cur 0 =? CR) = true -> match s with d :: _ => (d =? LF) = false | [] => True end.
+
+Lemma split_lines_shape s : forall cur, no_lf cur = true -> cur_inv cur s -> shape raw_ok raw_last (split_lines_aux s cur).
 Proof.
-  induction s as [|c s IH]; intros cur Hc.
+  induction s as [|c s IH]; intros cur Hc Hinv.
   - cbn. destruct cur as [|x cur]; cbn; [exact I|]. right. cbn. repeat split; [discriminate|exact Hc].
   - cbn [split_lines_aux]. destruct (c =? LF) eqn:EL.
-    + apply shape_cons; [split; [exact Hc|left; reflexivity] | intros H; left; exact H | apply IH; reflexivity].
+    + assert (Hcr : no_cr_end cur).
+      { unfold no_cr_end. destruct (last cur 0 =? CR) eqn:E; [|reflexivity]. specialize (Hinv E). cbn in Hinv. congruence. }
+      apply shape_cons; [repeat split; [exact Hc|left; reflexivity|intros _; exact Hcr] | intros H; left; exact H |].
+      apply IH; [reflexivity|intros H; cbn in H; discriminate].
     + assert (Hcc : no_lf (cur ++ [c]) = true).
       { rewrite no_lf_app, Hc. cbn. rewrite EL. reflexivity. }
-      destruct s as [|d s']; [apply IH; exact Hcc|].
-      destruct ((c =? CR) && (d =? LF)) eqn:E2.
-      * apply shape_cons; [split; [exact Hc|right; reflexivity] | intros H; left; exact H|].
-        (* IH is about (d :: s'); the tail here is s' *)
-        clear - IH E2. specialize (IH [] eq_refl). cbn [split_lines_aux] in IH.
-        apply andb_prop in E2. destruct E2 as [_ E2]. rewrite E2 in IH.
-        destruct (split_lines_aux s' []) as [|l2 X] eqn:EX; [exact I|]. cbn in IH. destruct IH as [_ IH]. exact IH.
-      * apply IH. exact Hcc.
+      destruct s as [|d s'].
+      * apply IH; [exact Hcc|intros _; exact I].
+      * destruct ((c =? CR) && (d =? LF)) eqn:E2.
+        -- apply shape_cons; [repeat split; [exact Hc|right; reflexivity|intros H; discriminate] | intros H; left; exact H|].
+           (* IH is about (d :: s'); the tail here is s' *)
+           assert (IH' : shape raw_ok raw_last (split_lines_aux (d :: s') [])).
+           { apply IH; [reflexivity|intros H; cbn in H; discriminate]. }
+           cbn [split_lines_aux] in IH'.
+           apply andb_prop in E2. destruct E2 as [_ E2]. rewrite E2 in IH'.
+           destruct (split_lines_aux s' []) as [|l2 X] eqn:EX; [exact I|]. cbn in IH'. destruct IH' as [_ IH']. exact IH'.
+        -- apply IH; [exact Hcc|].
+           intros H. rewrite last_last in H. rewrite H in E2. cbn in E2. exact E2.
 Qed.
 
 (* ---------- re-splitting ---------- *)
-Definition good (l : line) : Prop := no_lf (fst l) = true /\ no_cr_end (fst l) /\ term_nl (snd l).
+Definition good (l : line) : Prop := no_lf (fst l) = true /\ cr_ok l /\ term_nl (snd l).
 Definition ok_line (l : line) : Prop := is_elided l = true \/ good l.
 Definition ok_last (l : line) : Prop := ok_line l \/ (snd l = [] /\ fst l <> [] /\ no_lf (fst l) = true).
 
 Lemma split_one content : forall cur t rest,
-    no_lf content = true -> no_cr_end content -> term_nl t ->
+    no_lf content = true -> (t = [LF] -> no_cr_end content) -> term_nl t ->
     split_lines_aux (content ++ t ++ rest) cur = (cur ++ content, t) :: split_lines_aux rest [].
 Proof.
   induction content as [|c content IH]; intros cur t rest Hn Hcr Ht.
@@ -68,19 +81,16 @@ Proof.
     assert (Hnext : forall d s'', content ++ t ++ rest = d :: s'' -> (c =? CR) && (d =? LF) = false).
     { intros d s'' E. destruct content as [|x content'].
       - destruct Ht as [-> | ->]; cbn in E; inversion E; subst.
-        + unfold no_cr_end in Hcr. cbn in Hcr. rewrite Hcr. reflexivity.
+        + specialize (Hcr eq_refl). unfold no_cr_end in Hcr. cbn in Hcr. rewrite Hcr. reflexivity.
         + rewrite Bool.andb_false_r. reflexivity.
       - cbn in E. inversion E; subst. cbn in Hn. apply andb_prop in Hn. destruct Hn as [Hx _].
         apply Bool.negb_true_iff in Hx. rewrite Hx. apply Bool.andb_false_r. }
-    assert (Hcr' : no_cr_end content \/ content = []).
-    { destruct content as [|x content']; [right; reflexivity|left]. unfold no_cr_end in *. exact Hcr. }
+    assert (Hcr' : t = [LF] -> no_cr_end content).
+    { intros Et. destruct content as [|x content']; [reflexivity|]. specialize (Hcr Et). unfold no_cr_end in *. exact Hcr. }
     destruct (content ++ t ++ rest) as [|d s''] eqn:E.
     + exfalso. destruct content; [destruct Ht as [-> | ->]; discriminate|discriminate].
     + rewrite (Hnext d s'' eq_refl). rewrite <- E.
-      destruct Hcr' as [Hcr'| ->].
-      * rewrite (IH (cur ++ [c]) t rest Hn Hcr' Ht). rewrite <- app_assoc. reflexivity.
-      * assert (H0 : no_cr_end []) by reflexivity.
-        rewrite (IH (cur ++ [c]) t rest Hn H0 Ht). rewrite <- app_assoc. reflexivity.
+      rewrite (IH (cur ++ [c]) t rest Hn Hcr' Ht). rewrite <- app_assoc. reflexivity.
 Qed.
 
 Lemma split_no_lf s : forall cur,
@@ -157,8 +167,16 @@ Qed.
 
 Lemma trim_raw_ok l : raw_ok l -> ok_line (trim_line l).
 Proof.
-  intros [Hn Ht]. right. unfold good, trim_line. cbn [fst snd]. repeat split; [apply rstrip_no_lf; exact Hn|apply rstrip_no_cr_end|exact Ht].
+  intros (Hn & Ht & _). right. unfold good, cr_ok, trim_line. cbn [fst snd].
+  repeat split; [apply rstrip_no_lf; exact Hn|intros _; apply rstrip_no_cr_end|exact Ht].
 Qed.
+
+(* without a trimmer: the raw lines are already fit for re-splitting *)
+Lemma raw_ok_line l : raw_ok l -> ok_line l.
+Proof. intros (Hn & Ht & Hc). right. repeat split; assumption. Qed.
+
+Lemma raw_last_ok l : raw_last l -> ok_last l.
+Proof. intros [H|H]; [left; apply raw_ok_line; exact H|right; exact H]. Qed.
 
 Lemma trim_raw_last l : raw_last l -> ok_last (trim_line l).
 Proof.
@@ -189,7 +207,48 @@ Proof.
   change [PTrim; PLimit (LimitEmptyLines_init N)] with ([PTrim] ++ [PLimit (LimitEmptyLines_init N)]).
   rewrite emitted_app, emitted_limit, emitted_trim. apply limit_lines_shape.
   apply (shape_map raw_ok raw_last); [exact trim_raw_ok|exact trim_raw_last|].
-  apply split_lines_shape. reflexivity.
+  apply split_lines_shape; [reflexivity|intros H; discriminate].
+Qed.
+
+Lemma shape_impl (P Q P' Q' : line -> Prop) X :
+  (forall l, P l -> P' l) -> (forall l, Q l -> Q' l) -> shape P Q X -> shape P' Q' X.
+Proof.
+  intros Hp Hq. induction X as [|l X IH]; [auto|]. intros H.
+  destruct X as [|l2 X]; cbn in *; [auto|]. destruct H as [H1 H2]. split; [auto|]. apply IH. exact H2.
+Qed.
+
+(* the limiter alone (CLI --pp-max-emptylines with a language that does not trim) *)
+Theorem limit_only_shape (N : Z) (text : str) :
+  shape ok_line ok_last (emitted pipe_step [PLimit (LimitEmptyLines_init N)] (split_lines text)).
+Proof.
+  rewrite emitted_limit. apply limit_lines_shape.
+  apply (shape_impl raw_ok raw_last); [exact raw_ok_line|exact raw_last_ok|].
+  apply split_lines_shape; [reflexivity|intros H; discriminate].
+Qed.
+
+Lemma runs_filter N X : forall c,
+    runs_ok N c (filter (fun l => negb (is_elided l)) X) = runs_ok N c X.
+Proof.
+  induction X as [|l X IH]; intros c; [reflexivity|]. cbn [filter runs_ok]. change (elided l) with (is_elided l).
+  destruct (is_elided l) eqn:E; cbn [negb]; [apply IH|].
+  cbn [runs_ok]. change (elided l) with (is_elided l). rewrite E, !IH. reflexivity.
+Qed.
+
+(* with the limiter alone the file, read back, has at most N consecutive EMPTY lines (whitespace-only lines are not empty:
+   nothing trimmed them) and every non-empty line is kept unaltered *)
+Theorem limit_only_file_empty_bound (N : Z) (chunks : list str) :
+  (0 <= N)%Z ->
+  runs_ok N 0 (split_lines (snd (write_builtin [PLimit (LimitEmptyLines_init N)] chunks))) = true /\
+  filter (fun l => negb (empty_content l)) (split_lines (snd (write_builtin [PLimit (LimitEmptyLines_init N)] chunks)))
+  = filter (fun l => negb (empty_content l)) (split_lines (concat chunks)).
+Proof.
+  intros HN. unfold write_builtin. rewrite write_rj_linewise, linewise_is_concat_emitted.
+  rewrite (resplit _ (limit_only_shape N (concat chunks))). split.
+  - rewrite runs_filter, emitted_limit. apply limit_bound_lemma. exact HN.
+  - rewrite emitted_limit. rewrite <- (limit_nonempty_subsequence_lemma N (split_lines (concat chunks)) HN).
+    set (E := limit_lines (LimitEmptyLines_init N) (split_lines (concat chunks))).
+    induction E as [|l E IH]; [reflexivity|]. cbn [filter].
+    destruct l as [[|x c] [|t ts]]; cbn [is_elided negb empty_content fst filter]; rewrite ?IH; reflexivity.
 Qed.
 
 Lemma blank_runs_filter N X : forall c,
